@@ -12,6 +12,12 @@
   The pool machine is tied to chop.go / copy.go by event traces recorded under a cooperative scheduler
   with scripted store faults (`pool.accept`); the harness compares the machine's completed jobs with
   the final content of the target store.
+
+  The S3 and SFTP chunk stores as targets (`Model/RemoteStores.lean`): `s3_store_truthful`, `sftp_store_atomic`,
+  `sftp_store_reports_every_failure` are the store contract for these two backends (nil ⇒ the object is there, whole);
+  `s3_has_masks_failures_partial` + `has_false_is_safe_for_bulk_writes` say what their `HasChunk` does with a failing
+  request and why that is harmless here; `sftp_pool_balanced` is the connection pool.  Tied to s3.go / sftp.go by the
+  regenerated statement skeletons (`Properties/C06Remote.lean`) and by `s3.store` / `sftp.store` on the real stores.
 -/
 import Desync.Proofs.PoolCSProofs
 import Desync.Proofs.PoolProofs
